@@ -105,7 +105,7 @@ def evaluate(case):
                 res.fluid = FlowProperties(shared, case["p_i"])
         sim.simulate(res, t, sched)
         rf = np.asarray(res.recovery_factor(), dtype=float).copy()
-        if rf[0] != 0.0:
+        if not abs(rf[0]) <= 4 * np.finfo(float).eps:  # (a derived quantity: 1 - x * (1/x) may be one ulp)
             viol.append(V("start/flux", f"flux recovery starts at {rf[0]!r}, not 0 (nx={nx})", case=case,
                           observed=float(rf[0]), expected=0.0, tol=0))
         if cls == "ideal":
@@ -121,7 +121,7 @@ def evaluate(case):
             G.append(err)
             continue
         rfd = np.asarray(res.recovery_factor(density=True), dtype=float).copy()
-        if rfd[0] != 0.0:
+        if not abs(rfd[0]) <= 4 * np.finfo(float).eps:
             viol.append(V("start/in-place", f"in-place recovery starts at {rfd[0]!r}, not 0 (nx={nx})",
                           case=case, observed=float(rfd[0]), expected=0.0, tol=0))
         tb = res.fluid.pvt_props
@@ -195,6 +195,22 @@ def evaluate(case):
                                   case=case, observed=lim_s, tol=0.6 * abs(g[-1]) + DELTA_W * delta + 2e-4))
                     break
             outcome.append("gap-ladder")
+    if cls == "ideal" and not case.get("t0"):
+        # ideal-gas recovery depends on the pressures only through p_f / p_i: the same ratio at other pressure levels
+        nx0, nt0 = rungs[0]
+        t0_ = sim.time_grid("quadratic", nt0, T)
+        r_ = case["p_f"] / case["p_i"]
+        base = None
+        for p_i2 in (20.0, 500.0, case["p_i"], 30000.0):
+            q = sim.make_reservoir("ideal", nx0, r_ * p_i2, p_i2, None)
+            q.simulate(t0_)
+            rfq = np.asarray(q.recovery_factor(), dtype=float)
+            base = rfq if base is None else base
+            if not (np.allclose(rfq, base, rtol=1e-12, atol=1e-15) and abs(float(q.fvf_scale()) - (1 - r_)) <= 1e-12):
+                viol.append(V("ideal/depends-on-pressure-level", f"ideal recovery at p_f/p_i = {r_:.6g} differs between p_i = 20 psi and "
+                              f"p_i = {p_i2} psi (final values {float(base[-1])!r} vs {float(rfq[-1])!r}; 1 - p_f/p_i = {1 - r_!r})",
+                              case=case, observed=float(rfq[-1]), expected=float(base[-1])))
+                break
     if cls == "ideal" and len(PL) >= 2:
         # the plateau error is first order and must extrapolate to zero (measured +0.745/nx, +0.646/nx, +0.585/nx)
         lim_p = 2 * PL[-1] - PL[-2]
